@@ -240,6 +240,11 @@ static const ClassRow CLASSES[] = {
     {"fine-dag",      B_DAG,      false, false, false,  4,  4, false},
     {"fine-multi",    B_MULTI,    false, false, false,  4,  4, false},
     {"fine-eq-multi", B_MULTI,    true,  false, false,  2,  2, false},
+    // makeFeasible-like use (libcola/colafd.cpp): mostly equalities, added one at a time to a live
+    // solver with a satisfy() after each addConstraint
+    {"eq-incr",       B_MULTI,    true,  false, false,  4,  4, false},
+    {"eq-incr-dag",   B_DAG,      true,  false, false,  3,  3, false},
+    {"eq-incr-scaled",B_MULTI,    true,  true,  false,  2,  2, false},
 };
 static const int NCLASSES = sizeof(CLASSES) / sizeof(CLASSES[0]);
 
@@ -374,6 +379,35 @@ static Problem genRandom(uint64_t seed, long g, bool thorough) {
     genVarData(r, p, s, keepDesired);
     if (cl.eq) addEqualityExtras(r, p, s);
     genHistory(r, p, s);
+    if (p.tag.compare(0, 7, "eq-incr") == 0) {
+        int pct = (int) r.range(50, 100);
+        for (size_t j = 0; j < p.cons.size(); ++j) p.cons[j].eq = r.coin(pct, 100) ? 1 : 0;
+        if (r.coin(60, 100)) {
+            // consistent (hence highly redundant) equalities: gaps read off a hidden placement, as the
+            // alignment/distribution guidelines of libcola produce them; inequalities are mostly loose
+            // w.r.t. the hidden placement, some tight, some contradicting it
+            p.tag += "-cons";
+            std::vector<double> hid(p.n);
+            for (int i = 0; i < p.n; ++i) hid[i] = (double) r.range(-160, 160) / 8.0;
+            for (size_t j = 0; j < p.cons.size(); ++j) {
+                PCon &c = p.cons[j];
+                double d = (hid[c.r] * p.sc[c.r]) - (hid[c.l] * p.sc[c.l]);
+                if (c.eq) c.gap = d;
+                else {
+                    long w = r.range(0, 9);
+                    c.gap = (w < 6) ? d - (double) r.range(0, 64) / 8.0 : (w < 8) ? d : d + (double) r.range(1, 32) / 8.0;
+                }
+            }
+        }
+        int M = (int) p.cons.size();
+        p.m0 = std::min(M, (int) r.range(0, 2));
+        p.ops.clear();
+        if (p.m0 == M) { POp o = {OP_SATISFY, 0, 0.0}; p.ops.push_back(o); }
+        for (int j = p.m0; j < M; ++j) {
+            POp a = {OP_ADD, j, 0.0}; p.ops.push_back(a);
+            POp o = {r.coin(85, 100) ? OP_SATISFY : OP_SOLVE, 0, 0.0}; p.ops.push_back(o);
+        }
+    }
     return p;
 }
 
